@@ -126,7 +126,16 @@ def judge_candidate(cs, c, k, res, refine, panic_msg):
     # err
     if wc is None: return ('ok', '')
     key = 'well-conditioned-unrefined-failed' if wc == 'wc' else 'near-straight-unrefined-failed'
-    return ('fail', key, 'from_polygon returned Err for a well-conditioned polygon (%s)' % cond_note(cs, c))
+    # a vertex that carries more than one bridge (two holes hooked to the same outline vertex, or a hole hooked to the
+    # vertex of an earlier hole that carries that hole's bridge) is told apart: get_closed_loop splices the later walk in after
+    # the FIRST copy of such a vertex
+    ends = []
+    shared = False
+    for (ret, E, I, k0, remaining) in c.bridges:
+        if E in ends: shared = True
+        ends.append(E); ends.append(I)
+    if shared: key += ':shared-bridge-vertex'
+    return ('fail', key, 'from_polygon returned Err for a well-conditioned polygon (%s%s)' % (cond_note(cs, c), ', a vertex carries two bridges' if shared else ''))
 
 def judge_parts(k, A, i0, res, panic_msg):
     cs, key = G.prepare(A, i0, [])
